@@ -850,6 +850,11 @@ theorem build_closed (db : DB) (fuel root : Nat) (observers : List Nat) (h : (bu
     Closed db (build db fuel root observers).1 :=
   loopWith_spec fuel _ ⟨(fun c hc => by cases hc), (fun c hc => by cases hc), (fun c hc => by cases hc)⟩ h
 
+/-- ... and the root is one of its nodes: the closure is the closure OF the component whose call graph is about to be built. -/
+theorem build_contains_root (db : DB) (fuel root : Nat) (observers : List Nat) (h : (build db fuel root observers).2 = true) :
+    root ∈ (build db fuel root observers).1.nodes :=
+  build_root db fuel root observers h
+
 /-- the shape of the seeded change C09-5: handler 0 needs `A`, whose constructor is the `Ok` matcher 2 of the fallible
     callable 1; the `Err` matcher 3 has the error handler 4, which needs `C` (5); 5 needs `D` (6) and 6 needs `C`: a cycle
     behind the error handler -/
